@@ -637,8 +637,9 @@ def check_c17(run: Run, prog: Program) -> None:
         "translations. (E19.poly) The formulas of the planar polygon: PolygonTensor.area and Polygon.centroid, interpreted for symbolic vertices (3, 4 and 5 of them), are "
         "1/2 |shoelace sum| and the area centroid as polynomial identities - the invariance under rotation and reversal of the vertex list follows from the closed forms. "
         "(E19.simplex) Simplex.volume is |det| / (n-1)! when there are as many vertices as homogeneous coordinates, and otherwise the Cayley-Menger expression whose radicand "
-        "is the squared length (2 vertices) or the squared area of the triangle (3 vertices in 3-space). NOT decided: the projection of polygons embedded in 3-space onto "
-        "their plane, RegularPolygon, Cuboid; the roll/flip logic of __eq__; constructive "
+        "is the squared length (2 vertices) or the squared area of the triangle (3 vertices in 3-space). (E19.eq) PolytopeTensor.__eq__ against every permutation of the vertices of a symbolic "
+        "triangle and quadrilateral, each vertex of the other operand with a representative of its own: True exactly for the rotations of the cycle and of its reversal. "
+        "NOT decided: the projection of polygons embedded in 3-space onto their plane, RegularPolygon, Cuboid; == of polyhedra (facets in any order); constructive "
         "results (midpoint, circumcenter)."
     )
     poly = prog.cls("PolytopeTensor")
@@ -658,6 +659,10 @@ def check_c17(run: Run, prog: Program) -> None:
     run.floor("polygon measure formulas read (found, decided or not)", n3, 4)
     n4 = quadforms.rule_simplex_volume(run, prog)
     run.floor("simplex volume cases read (found, decided or not)", n4, 4)
+    # "two polytopes are == exactly when they have the same vertex cycle up to rotation / reversal": __eq__ against every permutation of the vertices
+    n5 = quadforms.rule_polytope_eq(run, prog)
+    run.floor("polygon equality cases read (found, decided or not)", n5, 2)
+    run.stats["polygon_equality_cases"] = n5
 
 
 # ================================================================================================ C01
